@@ -27,8 +27,12 @@ class Injector:
         self.nthreads = 0
         self.lock = threading.Lock()
         self.active = False
+        self.hooks = {}   # function name -> callable(code, line): scheduling points owned by a check
 
     def _on_line(self, code, line):
+        h = self.hooks.get(code.co_name)
+        if h is not None:
+            h(code, line)
         r = getattr(self.tl, "r", None)
         if r is None:
             with self.lock:
